@@ -10,6 +10,7 @@ from ..common import Suite, Finding, fhex, vhex, Reader, lean_batch
 from ..probes import ScriptedRNG, quiet, scratch
 from .c01 import make_target, make_mass, inside_start, read_coeffs, _hm
 
+THOROUGH_ROUNDS = 1  # the thorough tier of this property is one long run (soak / exhaustive enumeration)
 TRUSTED_EXTRA = [
     "C04: 'within Monte-Carlo error' is a consequence (law of large numbers) of the invariance theorem, not formalised; NumPy's PRNG laws are trusted",
     "C04: invariance is proved for unbounded targets (all integrators, all odd measurable velocity maps, RWMH scalar/vector); for box-truncated targets "
